@@ -114,3 +114,27 @@ func HEapOversize() {
 		}
 	}
 }
+
+// HMarshalDeterministicDecoded (C14 / C20): a decoded packet to which attributes are then added through
+// the API encodes to the same octets every time, under every map iteration order.
+// Params: attribute index of the received attribute, two attribute indices to add.
+func HMarshalDeterministicDecoded() {
+	r, a1, a2 := VAkaAttrs[vr.Param(0)], VAkaAttrs[vr.Param(1)], VAkaAttrs[vr.Param(2)]
+	w := VRefEncodeAka(1, vr.U8(), vr.U8(), []VRefAkaAttr{{Type: uint8(r), Value: VGenAkaValue(r, -1)}})
+	d := new(EAP)
+	vr.Assert("c14.detdec.unmarshal", d.Unmarshal(w) == nil)
+	a, ok := d.EapTypeData.(*EapAkaPrime)
+	vr.Assert("c14.detdec.type", ok)
+	if !ok {
+		return
+	}
+	vr.Assert("c14.detdec.set", a.SetAttr(a1, VGenAkaValue(a1, -1)) == nil && a.SetAttr(a2, VGenAkaValue(a2, -1)) == nil)
+	b1, err1 := d.Marshal()
+	b2, err2 := d.Marshal()
+	vr.Assert("c14.detdec.noerr", err1 == nil && err2 == nil)
+	if err1 == nil && err2 == nil {
+		vr.Assert("c14.deterministic.decoded", vr.EqBytes(b1, b2))
+		_, wf := VRefParseEAP(b1)
+		vr.Assert("c14.detdec.wellformed", wf)
+	}
+}
